@@ -301,14 +301,15 @@ fn run_w8() -> CaseResult {
             let b = simalloc::arena_call(0, || drop(Bump::<$n>::with_min_align_and_capacity(100))).is_err();
             let c = simalloc::arena_call(0, || drop(Bump::<$n>::try_with_min_align_and_capacity(100))).is_err();
             let d = simalloc::arena_call(0, || drop(Bump::<$n>::try_with_min_align_and_capacity(0))).is_err();
-            [a, b, c, d]
+            let e = simalloc::arena_call(0, || drop(<Bump<$n> as Default>::default())).is_err();
+            [a, b, c, d, e]
         }};
     }
-    let mut check = |n: usize, got: [bool; 4], want_panic: bool| {
+    let mut check = |n: usize, got: [bool; 5], want_panic: bool| {
         stats.hit("w8_constructor_checked");
         for (i, g) in got.iter().enumerate() {
             if *g != want_panic {
-                let name = ["with_min_align", "with_min_align_and_capacity", "try_with_min_align_and_capacity(100)", "try_with_min_align_and_capacity(0)"][i];
+                let name = ["with_min_align", "with_min_align_and_capacity", "try_with_min_align_and_capacity(100)", "try_with_min_align_and_capacity(0)", "Default::default"][i];
                 viol.push(Violation {
                     prop: "C04".into(),
                     sig: format!("C04/constructor-{}", if want_panic { "accepted-unsupported-min-align" } else { "refused-supported-min-align" }),
@@ -335,6 +336,12 @@ fn run_w8() -> CaseResult {
     check(32, ctor3!(32), true);
     check(64, ctor3!(64), true);
     check(4096, ctor3!(4096), true);
+    check(17, ctor3!(17), true);
+    check(48, ctor3!(48), true);
+    check(128, ctor3!(128), true);
+    check(1 << 20, ctor3!({ 1 << 20 }), true);
+    check(1 << 63, ctor3!({ 1 << 63 }), true);
+    check(usize::MAX - 15, ctor3!({ usize::MAX - 15 }), true);
     check(usize::MAX, ctor3!({ usize::MAX }), true);
     let mut ev = Vec::new();
     simalloc::take_events(&mut ev);
